@@ -186,6 +186,32 @@ ObsSt == [now |-> BASE, phase |-> Phase, quiet |-> Quiescent,
           shut |-> IF shut = "no" THEN "no" ELSE IF shut = "returned" THEN "returned" ELSE "begun",
           forced |-> last.forced]
 
+\* The part of the vocabulary that strict conformance compares after every step of a gated script (lib/conform.py computes
+\* the same view from the recorded vocabulary of the real runner): everything that is reported, stored or kept on disk now;
+\* times, ages and the history (runs, stops, acknowledgements) are left out.
+ConfView(o) ==
+  [phase |-> o.phase, shut |-> o.shut,
+   cfg |-> [p \in DOMAIN o.cfg |-> [def |-> o.cfg[p].def, ver |-> IF o.cfg[p].def THEN o.cfg[p].ver ELSE 0]],
+   pipes |-> o.pipes,
+   jobs |-> [j \in DOMAIN o.jobs |->
+               IF o.jobs[j].listed
+               THEN [listed |-> TRUE, p |-> o.jobs[j].p, ver |-> o.jobs[j].ver, started |-> o.jobs[j].started, completed |-> o.jobs[j].completed,
+                     canceled |-> o.jobs[j].canceled, errored |-> o.jobs[j].errored, lastErr |-> o.jobs[j].lastErr,
+                     tasks |-> [t \in DOMAIN o.jobs[j].tasks |-> [status |-> o.jobs[j].tasks[t].status, errored |-> o.jobs[j].tasks[t].errored,
+                                                                  canceled |-> o.jobs[j].tasks[t].canceled]]]
+               ELSE [listed |-> FALSE]],
+   open |-> [j \in DOMAIN o.runs |-> [t \in DOMAIN o.runs[j] |-> o.runs[j][t].open]],
+   store |-> [j \in DOMAIN o.store.jobs |->
+               IF o.store.jobs[j].present
+               THEN [present |-> TRUE, completed |-> o.store.jobs[j].completed, canceled |-> o.store.jobs[j].canceled,
+                     started |-> o.store.jobs[j].started,
+                     \* while a request is pending the loop may have saved between two callbacks that are one step here
+                     \* (HandleTaskChange / HandleStageChange): whether the record is up to date is then not predicted
+                     same |-> IF persist.req THEN "*" ELSE IF o.store.jobs[j].same THEN "y" ELSE "n"]
+               ELSE [present |-> FALSE]],
+   logs |-> o.logs,
+   res |-> o.last.res, err |-> o.last.err, new |-> o.last.new]
+
 Pr == INSTANCE Props WITH st <- obs, ev <- ev, pre <- pre, tbl <- VerTable
 
 \* pre' : the last quiescent vocabulary strictly before the next state
@@ -545,7 +571,8 @@ DoSave ==
   LET jb1 == SaveJobs(job) IN
   /\ job' = jb1
   /\ waitList' = [p \in P |-> SelectSeq(waitList[p], LAMBDA j : jb1[j].present)]
-  /\ logs' = [j \in Jobs |-> logs[j] /\ jb1[j].present]
+  \* the output of the jobs this save removes is deleted (a job lost by a crash is not known to the new runner: its output stays)
+  /\ logs' = [j \in Jobs |-> logs[j] /\ ~(job[j].present /\ ~jb1[j].present)]
   /\ store' = [j \in Jobs |-> IF jb1[j].present THEN [present |-> TRUE, rec |-> Persisted(jb1, j)] ELSE [present |-> FALSE]]
 
 Save ==
@@ -561,7 +588,9 @@ Save ==
 
 \* the persist loop: a pending request is served at once when the loop is idle, then it sleeps 3 s
 PersistSave ==
-  /\ PersistDue /\ GoroutinesIdle /\ \A j \in Jobs : ~TimerDue(j)
+  \* the loop goroutine saves as soon as a request is there - before or after the goroutines of the jobs have taken their
+  \* steps (what is written then may already be outdated: the later steps leave their own request)
+  /\ PersistDue
   /\ DoSave
   /\ \E left \in (IF persist.multi THEN {FALSE, TRUE} ELSE {FALSE}) :
         persist' = [req |-> left, multi |-> FALSE, pc |-> "sleeping", stale |-> FALSE]
